@@ -168,6 +168,22 @@ func r01_1(c *Ctx, rule string) {
 			as[k] = false
 		}
 		c.ObUnreachable(rule, "fsutil.mkstat/readlink-only-symlinks", mk, as, func(in ssa.Instruction) bool { return in == ssa.Instruction(call) }, "os.Readlink", "the entry is not a symlink")
+		// ... and for every symlink, whatever the stat holds by then (the
+		// inode bookkeeping has put the first name of a multiply linked inode
+		// into Linkname: that is not the target of a symlink)
+		isSym := map[string]bool{}
+		for k := range as {
+			isSym[k] = true
+		}
+		// (a symlink is not a directory)
+		for _, dc := range c.P.CallsTo(mk, "(io/fs.FileInfo).IsDir") {
+			if v := dc.Value(); v != nil {
+				isSym[x.KeyAtEntry(v)] = false
+			}
+		}
+		if len(isSym) > 0 {
+			c.ObSuccessNeeds(rule, "fsutil.mkstat/readlink-for-every-symlink", mk, nil, isSym, func(in ssa.Instruction) bool { return in == ssa.Instruction(call) }, "os.Readlink (the entry is a symlink)")
+		}
 		c.ObErrChecked(rule+"/checked", call)
 		// the readlink result is final: nothing overwrites Linkname afterwards
 		for _, s := range fieldStoresIn(mk, "types.Stat.Linkname") {
